@@ -52,7 +52,25 @@ pub fn strength_name(s: u8) -> &'static str {
 }
 
 pub fn write_case(prog: &Prog, cfg: Cfg, enc: Option<&Enc>, perms: Option<Permissions>) -> Result<Vec<u8>, String> {
+    write_case_with_fields(prog, cfg, enc, perms, &[])
+}
+
+/// `fields`: (name, value, default value) of text fields added through Document::enable_forms — strings under the
+/// keys /T, /V and /DV of field dictionaries, i.e. string-bearing dictionaries that are neither Info nor annotations
+pub fn write_case_with_fields(prog: &Prog, cfg: Cfg, enc: Option<&Enc>, perms: Option<Permissions>, fields: &[(String, Option<String>, Option<String>)]) -> Result<Vec<u8>, String> {
     let mut doc = progdoc::build_document(prog)?;
+    for (i, (name, value, dv)) in fields.iter().enumerate() {
+        let mut f = oxidize_pdf::forms::TextField::new(name.clone());
+        if let Some(v) = value {
+            f = f.with_value(v.clone());
+        }
+        if let Some(d) = dv {
+            f = f.with_default_value(d.clone());
+        }
+        let y = 700.0 - 30.0 * i as f64;
+        let w = oxidize_pdf::forms::Widget::new(oxidize_pdf::Rectangle::new(oxidize_pdf::Point::new(50.0, y), oxidize_pdf::Point::new(250.0, y + 20.0)));
+        doc.enable_forms().add_text_field(f, w, None).map_err(|e| format!("add_text_field: {e}"))?;
+    }
     if let Some(e) = enc {
         doc.set_encryption(oxidize_pdf::document::DocumentEncryption::new(e.user.clone(), e.owner.clone(), perms.unwrap_or_else(Permissions::all), strength_of(e.strength)));
     }
